@@ -148,6 +148,12 @@ func faultRun(prop, tier string, c Case, w *Worker) (res Result) {
 					return
 				}
 				res.count("fault_points_"+base, 1)
+				// the same point as the first of a persistent failure: every later event on that resource fails as well
+				if !fc.oneFault(rc.snap, rc.op, &Fault{Class: class, K: k, Sticky: true}, what+" (persistent)", false) {
+					res.Detail = map[string]any{"cfg": cfg, "call": rc.op, "fault": class, "k": k, "persistent": true, "history": opsUpTo(hops, ci)}
+					return
+				}
+				res.count("persistent_fault_points", 1)
 				if len(sample) < 6 {
 					sample = append(sample, fmt.Sprintf("%s at %s", what, rc.op))
 				}
@@ -316,6 +322,6 @@ func rejectionRun(fc *faultCtx, c Case) (res Result) {
 func init() {
 	register(&Engine{Name: "faults", Props: []string{"C10"}, Cases: faultCases, Run: faultRun})
 	propMeta["C10"] = PropMeta{Level: "fault_enumeration",
-		Rule: "per case one generated history (fs-level and batched calls) is run fault-free while the seams count, per call, the drive writes, drive reads, index-store calls, write-cache calls, source reads and drive opens it reaches; then the call is re-run from a snapshot of the instance taken before it once for every k up to each count with exactly that event failing (error, and short write for drive writes; closing the drive writer/reader, the write-cache clean-up and the source's Close report an error after doing their work), and once with the drive directory missing; after each: the call returned, the process lives, no lock is held once the streaming goroutine has settled (lock hooks), and a probe lookup + mutating call return; plus two cases of explicit precondition rejections; non-trivial = at least 20 fault points fired; distinct = distinct (configuration, history)",
+		Rule: "per case one generated history (fs-level and batched calls) is run fault-free while the seams count, per call, the drive writes, drive reads, index-store calls, write-cache calls, source reads and drive opens it reaches; then the call is re-run from a snapshot of the instance taken before it once for every k up to each count with exactly that event failing (error, and short write for drive writes; closing the drive writer/reader, the write-cache clean-up and the source's Close report an error after doing their work), once more per point as the first event of a PERSISTENT failure (from that event on every drive open / read / write / close - resp. every write-cache call, every source call, every index-store call - fails until the call returns), and once with the drive directory missing; after each: the call returned, the process lives, no lock is held once the streaming goroutine has settled (lock hooks), and a probe lookup + mutating call return; plus two cases of explicit precondition rejections; non-trivial = at least 20 fault points fired; distinct = distinct (configuration, history)",
 		Assumptions: []string{"the state after a fault is not judged", "re-runs start from a reopened copy of the instance as it was before the call (index + tape), not from a replay of the whole history", "hang verdicts come from the no-progress watchdog classified by goroutine state"}}
 }
